@@ -28,6 +28,34 @@ def on_cycle(edges, n):
 def make_cases(rng, tier, n):
     cases, stats = [], {}
     for c_i in range(n):
+        if c_i % 20 in (7, 17):
+            sfx = [b".log", b"-v2.txt", b" copy", b".d"][(c_i // 20) % 4]
+            if c_i % 20 == 7:
+                # an output whose name is a directory output's name plus a character that sorts before '/', owned by a THIRD stage; the
+                # consumer reads two and three levels below the directory: its owner is upstream whatever the names around it
+                deep = b"out/d0/sub/deep/h" if (c_i // 20) % 2 else b"out/d0/sub/g"
+                c = dict(id="dag-%d" % c_i, ops=[], cache=rng.choice(["rel", "abs"]), cyclic=False, nested=True, kinds=["dir", "file", "file"], edges=[(0, 2)],
+                         init=[("file", b"src/s0.txt", "g:%d:9" % rng.randrange(1000)), ("file", b"src/s1.txt", "g:%d:9" % rng.randrange(1000))],
+                         stages=[(b"st0.yaml", dict(cmd=b"vcmd S0 out/d0/ -- src/s0.txt", wd=b".", out=[(b"out/d0", "d")], **{"in": [(b"src/s0.txt", "")]})),
+                                 (b"st1.yaml", dict(cmd=b"vcmd S1 out/d0" + sfx.replace(b" ", b"_") + b" -- src/s1.txt", wd=b".", out=[(b"out/d0" + sfx.replace(b" ", b"_"), "")],
+                                                    **{"in": [(b"src/s1.txt", "")]})),
+                                 (b"st2.yaml", dict(cmd=b"vcmd S2 out/o2.txt -- " + deep, wd=b".", out=[(b"out/o2.txt", "")], **{"in": [(deep, "")]}))])
+                c["ops"] = [("run", False, [b"st2.yaml"]), ("status", [b"st2.yaml"]), ("commit", rng.choice("lc"), [b"st2.yaml"]), ("run", False, [b"st2.yaml", b"st1.yaml"]),
+                            ("commit", "l", []), ("clone", []), ("checkout", rng.choice("lc"), False, [b"st2.yaml"]), ("status", [])]
+                stats["prefix_named_output"] = stats.get("prefix_named_output", 0) + 1
+            else:
+                # the ONLY edge between two stages is a skip-cache output: every command that walks upstream walks through it
+                c = dict(id="dag-%d" % c_i, ops=[], cache=rng.choice(["rel", "abs"]), cyclic=False, nested=False, kinds=["file", "file", "file"], edges=[(0, 1), (1, 2)],
+                         init=[("file", b"src/s0.txt", "g:%d:9" % rng.randrange(1000))],
+                         stages=[(b"st0.yaml", dict(cmd=b"vcmd S0 out/o0.txt -- src/s0.txt", wd=b".", out=[(b"out/o0.txt", "")], **{"in": [(b"src/s0.txt", "")]})),
+                                 (b"st1.yaml", dict(cmd=b"vcmd S1 out/m1.json -- out/o0.txt", wd=b".", out=[(b"out/m1.json", "s")], **{"in": [(b"out/o0.txt", "")]})),
+                                 (b"st2.yaml", dict(cmd=b"vcmd S2 out/o2.txt -- out/m1.json", wd=b".", out=[(b"out/o2.txt", "")], **{"in": [(b"out/m1.json", "")]}))])
+                c["ops"] = [("run", False, []), ("commit", rng.choice("lc"), []), ("push", False, [b"st2.yaml"]), ("rm", b"out/o0.txt"), ("rm", b"out/o2.txt"), ("wipecache",),
+                            ("fetch", False, [b"st2.yaml"]), ("checkout", rng.choice("lc"), False, [b"st2.yaml"]), ("status", [b"st2.yaml"]), ("run", False, [b"st2.yaml"])]
+                stats["skip_cache_only_edge"] = stats.get("skip_cache_only_edge", 0) + 1
+            stats["stages_3"] = stats.get("stages_3", 0) + 1
+            cases.append(c)
+            continue
         ns = rng.choice([2, 3, 3, 4, 4] + ([5, 6, 8] if tier == "thorough" else [5]))
         cyclic = rng.random() < 0.2
         force_sink = (c_i % 8 == 5)
